@@ -213,10 +213,17 @@ class CRS:
 
         if self.projected:
             _dir_renames = {"north": "y", "south": "y", "east": "x", "west": "x"}
+            axes = list(self._crs.axis_info)
             units = {
                 _dir_renames.get(ax.direction, ax.direction): ax.unit_name
-                for ax in self._crs.axis_info
+                for ax in axes
             }
+            if len(units) < len(axes) == 2:
+                # polar CRSs: both axes point north (or south), tell them apart by name
+                units = {
+                    ("y" if ax.name.lower().startswith("north") else "x"): ax.unit_name
+                    for ax in axes
+                }
             return units.get("y", ""), units.get("x", "")
 
         raise ValueError("Neither projected nor geographic")  # pragma: no cover
